@@ -54,6 +54,8 @@ pub struct Script {
     pub long_paths: Vec<(Vec<u8>, u32)>,
     pub conflicts: Vec<Conflict>,
     pub untracked: Vec<Vec<u8>>,
+    /// directories (empty = root) that get a `.gitignore` before `git status` fills the untracked cache
+    pub gitignores: Vec<Vec<u8>>,
     pub status: bool,
 }
 
@@ -300,8 +302,7 @@ pub fn gen_script(t: &mut Tape) -> Script {
         None
     };
     let mut long_paths = Vec::new();
-    // (v2/v3 worlds end at this step as long as the known finding about long names is open: keep them rarer)
-    if t.chance(if version == 4 { 64 } else { 24 }) {
+    if t.chance(64) {
         let lead = *t.pick(b"!0Mz~");
         for i in 0..t.range(1, 3) {
             let len = *t.pick(&[0xffeusize, 0xfff, 0x1000, 0x1001, 0x1002, 0x1003, 0x1004, 0x1005, 0x1006, 0x1007, 5000, 17_000, 17_000, 17_000]);
@@ -350,6 +351,17 @@ pub fn gen_script(t: &mut Tape) -> Script {
             }
         }
     }
+    // per-directory exclude files make the UNTR hash-valid bitmap and id list non-trivial (any directory, also the
+    // last one in the cache's pre-order)
+    let mut gitignores = Vec::new();
+    if status {
+        for _ in 0..t.range(0, 3) {
+            let d = ns.dirs[t.below(ns.dirs.len())].clone();
+            if !gitignores.contains(&d) {
+                gitignores.push(d);
+            }
+        }
+    }
     Script {
         version,
         threads,
@@ -369,6 +381,7 @@ pub fn gen_script(t: &mut Tape) -> Script {
         long_paths,
         conflicts,
         untracked,
+        gitignores,
         status,
     }
 }
@@ -680,6 +693,13 @@ pub fn run_script(
         }
         if s.untracked.len() >= 2 {
             infra!(c, std::fs::write(root.join(".gitignore"), b"*.o\n/ignored\n"), "write .gitignore");
+        }
+        for d in &s.gitignores {
+            let dir = os_path(&root, d);
+            // only directories that exist in the worktree (index-only entries create none)
+            if dir.is_dir() && !dir.join(".gitignore").exists() {
+                infra!(c, std::fs::write(dir.join(".gitignore"), b"*.tmp\n"), "write nested .gitignore");
+            }
         }
         infra!(c, git.run(["status", "--porcelain", "-z"]), "status");
         if !snapshot(c, &w, &git, "status") {
